@@ -827,7 +827,9 @@ func (x *Exec) fieldAddr(st *State, v *ssa.FieldAddr) Val {
 		}
 		x.fail("field address through element pointer")
 	case VRef:
-		x.safety(st, v, "nil", Not(Eq(p.T, e.ar.IConst(0))), "receiver/pointer is non-nil")
+		if !(p.T.Op == "app" && (strings.HasPrefix(p.T.Name, "sub_") || p.T.Name == "elemref")) {
+			x.safety(st, v, "nil", Not(Eq(p.T, e.ar.IConst(0))), "receiver/pointer is non-nil")
+		}
 		ft := sty.Underlying().(*types.Struct).Field(v.Field).Type()
 		if isStruct(ft) {
 			return VRef{e.subRef(sty, v.Field, p.T)}
